@@ -1022,6 +1022,29 @@ func (g *Gen) Render(n *Node, v Val, pos string) (Val, bool) {
 			perm := rapid.Permutation(out.M).Draw(g.T, g.label("mperm"))
 			out.M = perm
 		}
+		// a typed map (map[string]string / int / float64 / bool) when every value has that type
+		if !g.Cfg.LogicalKeys && len(out.M) > 0 && g.p(g.Cfg.PStructInput, "tmap") {
+			t := out.M[0].V.T
+			same := true
+			for _, kv := range out.M {
+				same = same && kv.V.T == t
+			}
+			if same {
+				switch t {
+				case "string":
+					out.T = "mapss"
+				case "int":
+					out.T = "mapsi"
+				case "float64":
+					out.T = "mapsf"
+				case "bool":
+					out.T = "mapsb"
+				}
+			}
+			if out.T != "map" {
+				return out, true
+			}
+		}
 		// a Go struct as data source, when every key is usable as an exported field name
 		if !g.Cfg.LogicalKeys && len(out.M) > 0 && g.p(g.Cfg.PStructInput, "sin") {
 			ok := true
